@@ -81,6 +81,20 @@ module Nat =
     | S n' -> (match m with
                | O -> false
                | S m' -> eqb n' m')
+
+  (** val leb : nat -> nat -> bool **)
+
+  let rec leb n0 m =
+    match n0 with
+    | O -> true
+    | S n' -> (match m with
+               | O -> false
+               | S m' -> leb n' m')
+
+  (** val ltb : nat -> nat -> bool **)
+
+  let ltb n0 m =
+    leb (S n0) m
  end
 
 module Pos =
@@ -1028,6 +1042,26 @@ let block_stats st b =
 let edges_at_end st =
   forallb (fun e -> let (y, _) = e in let (u, k) = y in Nat.eqb k (len st u))
     st.eds
+
+(** val entry_of : lstat -> nat **)
+
+let entry_of = function
+| LRef (_, e) -> e
+| LAsg (_, e) -> e
+| LDel (_, e) -> e
+
+(** val graph_ok : nat -> bst -> bool **)
+
+let graph_ok ne st =
+  (&&)
+    ((&&)
+      ((&&) ((&&) (edges_at_end st) (Nat.eqb (len st O) O))
+        (Nat.leb (S O) st.nb))
+      (forallb (fun e ->
+        let (y, v) = e in
+        let (u, _) = y in (&&) (Nat.ltb u st.nb) (Nat.ltb v st.nb)) st.eds))
+    (forallb (fun p ->
+      (&&) (Nat.ltb (fst p) st.nb) (Nat.ltb (entry_of (snd p)) ne)) st.sts)
 
 (** val reach_step : bst -> nat list -> nat list **)
 
